@@ -80,6 +80,12 @@ def create_connection(
             if sock is not None:
                 sock.close()
 
+        except BaseException:
+            # e.g. KeyboardInterrupt inside connect(): nobody else holds the socket yet
+            if sock is not None:
+                sock.close()
+            raise
+
     if err is not None:
         try:
             raise err
